@@ -2,7 +2,11 @@
 
 use std::any::type_name;
 use std::num::NonZero;
+#[cfg(folo_verif)]
+use std::sync::Arc;
+#[cfg(not(folo_verif))]
 use std::sync::atomic::{AtomicBool, AtomicU64, Ordering};
+#[cfg(not(folo_verif))]
 use std::sync::{Arc, Mutex};
 use std::thread::{self, JoinHandle as ThreadJoinHandle};
 use std::{fmt, mem, panic};
@@ -12,6 +16,10 @@ use many_cpus::{ProcessorId, SystemHardware};
 use new_zealand::nz;
 use tracing::{debug, trace};
 
+#[cfg(folo_verif)]
+use crate::verif_sync::Mutex;
+#[cfg(folo_verif)]
+use crate::verif_sync::atomic::{AtomicBool, AtomicU64, Ordering};
 use crate::{IterationResult, NEVER_POISONED, ProcessorRegistry, Scheduler, WorkerCore};
 
 /// Experimentally determined as providing good throughput under
